@@ -11,8 +11,12 @@ package roundrobin
 //@   immutable mtx backoffDuration next errHandler newMeter stickySession requestRewriteListener debug log
 //@   setup Wrap
 //@   guarded_by mtx: timer servers ratings
+//@   ghost gnorm int guarded_by mtx
 //@   lockinv mtx (rb): rb_pool_ok: rbPoolOK(rb)
 //@   lockinv mtx (rb): rb_uniq: rbUniq(rb)
+//@   lockinv mtx (rb): rb_distinct: rbDistinct(rb)
+//@   lockinv mtx (rb): rb_weights_in_range: rbWeightsOK(rb)
+//@   lockinv mtx (rb): rb_ratings_sized: len(rb.ratings) == len(rb.servers)
 
 //@ type rbServer
 //@   immutable url meter
@@ -66,20 +70,28 @@ package roundrobin
 //@ func (*Rebalancer).upsertServer
 //@   props C02 C10
 //@   holds rb.mtx
-//@   requires rbPoolOK(rb) && rbUniq(rb) && u != nil
-//@   modifies everything
+//@   requires rbPoolOK(rb) && rbUniq(rb) && rbDistinct(rb) && u != nil && weight >= 0 && (forall i int :: 0 <= i && i < len(rb.servers) ==> rb.servers[i].origWeight >= 0)
+//@   modifies external, rb.servers, elems(rb.servers), rbServer.origWeight
+//@   ensures keeps_distinct: rbDistinct(rb)
+//@   ensures configured_weights_nonneg: forall i int :: 0 <= i && i < len(rb.servers) ==> rb.servers[i].origWeight >= 0
+//@   ensures old_records_kept: forall i int :: 0 <= i && i < old(len(rb.servers)) ==> rb.servers[i] == old(rb.servers[i])
 //@   ensures keeps_pool_ok: rbPoolOK(rb)
 //@   ensures keeps_uniq: rbUniq(rb)
 //@   ensures existing_no_new_record: old(rbMember(rb, u)) && result == nil ==> len(rb.servers) == old(len(rb.servers))
 //@   ensures new_record: !old(rbMember(rb, u)) && result == nil ==> len(rb.servers) == old(len(rb.servers)) + 1 && sameID(u, rb.servers[len(rb.servers)-1].url) && rb.servers[len(rb.servers)-1].origWeight == weight && rb.servers[len(rb.servers)-1].curWeight == weight
-//@   ensures failure_keeps_records: result != nil ==> len(rb.servers) == old(len(rb.servers))
+//@   ensures failure_keeps_records: result != nil ==> len(rb.servers) == old(len(rb.servers)) && (forall i int :: 0 <= i && i < len(rb.servers) ==> rb.servers[i].origWeight == old(rb.servers[i].origWeight))
+//@   ensures other_configured_weights_kept: forall i int :: 0 <= i && i < old(len(rb.servers)) && !sameID(u, rb.servers[i].url) ==> rb.servers[i].origWeight == old(rb.servers[i].origWeight)
 //@   ensures member_after: result == nil ==> rbMember(rb, u)
 
 //@ func (*Rebalancer).removeServer
 //@   props C02 C10
 //@   holds rb.mtx
-//@   requires rbPoolOK(rb) && rbUniq(rb) && u != nil
-//@   modifies everything
+//@   requires rbPoolOK(rb) && rbUniq(rb) && rbDistinct(rb) && rbWeightsOK(rb) && len(rb.ratings) == len(rb.servers) && u != nil
+//@   modifies external, rb.servers, elems(rb.servers), rbServer.curWeight, rb.timer, rb.ratings
+//@   ensures keeps_distinct: rbDistinct(rb)
+//@   ensures keeps_weights_in_range: rbWeightsOK(rb)
+//@   ensures ratings_sized: len(rb.ratings) == len(rb.servers)
+//@   ensures removal_restores_configuration: result == nil ==> (forall i int :: 0 <= i && i < len(rb.servers) ==> rb.servers[i].curWeight == rb.servers[i].origWeight)
 //@   ensures keeps_pool_ok: rbPoolOK(rb)
 //@   ensures keeps_uniq: rbUniq(rb)
 //@   ensures unknown_fails: !old(rbMember(rb, u)) ==> result != nil && calls(rb.next.RemoveServer) == 0
@@ -100,13 +112,14 @@ package roundrobin
 //@ func (*Rebalancer).reset
 //@   props C02 C10
 //@   holds rb.mtx
-//@   requires rbPoolOK(rb) && rbUniq(rb)
-//@   modifies everything
+//@   requires rbPoolOK(rb) && rbUniq(rb) && rbDistinct(rb) && (forall i int :: 0 <= i && i < len(rb.servers) ==> rb.servers[i].origWeight >= 0)
+//@   modifies external, rbServer.curWeight, rb.timer, rb.ratings
+//@   ensures weights_in_range: rbWeightsOK(rb)
 //@   ensures keeps_records: len(rb.servers) == old(len(rb.servers)) && (forall i int :: 0 <= i && i < len(rb.servers) ==> rb.servers[i] == old(rb.servers[i]) && rb.servers[i].origWeight == old(rb.servers[i].origWeight))
 //@   ensures weights_restored: forall i int :: 0 <= i && i < len(rb.servers) ==> rb.servers[i].curWeight == rb.servers[i].origWeight
 //@   ensures balancer_told: calls(rb.next.UpsertServer) == 0 || len(rb.servers) > 0
 //@   ensures ratings_sized: len(rb.ratings) == len(rb.servers)
-//@   loop 1 invariant -1 <= rangeindex && rangeindex < len(rb.servers) && rbPoolOK(rb)
+//@   loop 1 invariant -1 <= rangeindex && rangeindex < len(rb.servers) && rbPoolOK(rb) && rbDistinct(rb)
 //@   loop 1 invariant len(rb.servers) == old(len(rb.servers)) && (forall i int :: 0 <= i && i < len(rb.servers) ==> rb.servers[i] == old(rb.servers[i]) && rb.servers[i].origWeight == old(rb.servers[i].origWeight))
 //@   loop 1 invariant forall i int :: 0 <= i && i <= rangeindex ==> rb.servers[i].curWeight == rb.servers[i].origWeight
 
@@ -114,11 +127,13 @@ package roundrobin
 //@   props C02 C10
 //@   atomic rb.mtx
 //@   requires u != nil
+//@   after_call rb.next.ServerWeight accepted_server_is_known: result1 && result0 >= 0
 //@   modifies everything
 //@   ensures success_member: result == nil ==> rbMember(rb, u)
 //@   ensures existing_no_new_record: old(rbMember(rb, u)) && result == nil ==> len(rb.servers) == old(len(rb.servers))
 //@   ensures new_record: !old(rbMember(rb, u)) && result == nil ==> len(rb.servers) == old(len(rb.servers)) + 1
-//@   ensures failure_keeps_records: result != nil ==> len(rb.servers) == old(len(rb.servers))
+//@   ensures failure_keeps_records: result != nil ==> len(rb.servers) == old(len(rb.servers)) && (forall i int :: 0 <= i && i < len(rb.servers) ==> rb.servers[i].origWeight == old(rb.servers[i].origWeight))
+//@   ensures other_configured_weights_kept: forall i int :: 0 <= i && i < old(len(rb.servers)) && !sameID(u, rb.servers[i].url) ==> rb.servers[i].origWeight == old(rb.servers[i].origWeight)
 //@   ensures weights_restored: result == nil ==> (forall i int :: 0 <= i && i < len(rb.servers) ==> rb.servers[i].curWeight == rb.servers[i].origWeight)
 //@   ensures balancer_first: calls(rb.next.UpsertServer) >= 1 && callarg(rb.next.UpsertServer, 0, 0) == u
 //@   ensures failed_add_rolled_back: result != nil && callres(rb.next.UpsertServer, 0, 0) == nil ==> calls(rb.next.RemoveServer) == 1 && callarg(rb.next.RemoveServer, 0, 0) == u
@@ -134,7 +149,7 @@ package roundrobin
 //@   props C02 C10
 //@   atomic rb.mtx
 //@   requires u != nil
-//@   modifies everything
+//@   modifies external
 //@   ensures records_kept: len(rb.servers) == old(len(rb.servers)) && (forall i int :: 0 <= i && i < len(rb.servers) ==> rb.servers[i] == old(rb.servers[i]) && rb.servers[i].curWeight == old(rb.servers[i].curWeight) && rb.servers[i].origWeight == old(rb.servers[i].origWeight))
 
 //@ iface roundrobin.Meter.Record
@@ -156,12 +171,160 @@ package roundrobin
 //@   at_call rb.next.Next.ServeHTTP routed_to_selection: (calls(rb.next.NextServer) == 1 && callres(rb.next.NextServer, 0, 1) == nil && arg1.URL == callres(rb.next.NextServer, 0, 0)) || (calls(rb.next.NextServer) == 0 && callres(GetBackend, 0, 1) && sameID(arg1.URL, callres(GetBackend, 0, 0)))
 //@   at_call rb.next.Next.ServeHTTP fresh_url: fresh(arg1.URL)
 
-//@ func (*Rebalancer).adjustWeights
-//@   props C10
-//@   atomic rb.mtx
-//@   modifies everything
 
 //@ type codeMeter
 //@   extsync
 //@   mutators Rating Record IsReady
 //@   immutable r codeS codeE
+
+// ---- C10: weights stay in range, outliers never gain share, membership changes restore configuration -----
+// Facts about the gcd used as axioms (elementary number theory, listed as trusted in the evidence):
+//@ axiom gcd_left_zero: forall b int :: b >= 0 ==> GCD(0, b) == b
+//@ axiom gcd_le_left: forall a int, b int :: a > 0 && b >= 0 ==> GCD(a, b) <= a && GCD(a, b) >= 1
+//@ axiom gcd_divides: forall a int, b int {GCD(a, b)} :: a >= 0 && b >= 0 && GCD(a, b) >= 1 ==> a % GCD(a, b) == 0 && b % GCD(a, b) == 0
+//@ axiom divides_transitive: forall a int, b int, c int {a % b, b % c} :: a >= 0 && b >= 1 && c >= 1 && a % b == 0 && b % c == 0 ==> a % c == 0
+//@ axiom exact_quotient: forall a int, g int {a / g} :: a >= 0 && g >= 1 && a % g == 0 ==> (a / g) * g == a
+//@ axiom gcd_le_right: forall a int, b int :: a >= 0 && b > 0 ==> GCD(a, b) <= b && GCD(a, b) >= 1
+
+//@ pred rbWeightsOK(rb *Rebalancer) = forall i int :: 0 <= i && i < len(rb.servers) ==> rb.servers[i].origWeight >= 0 && rb.servers[i].curWeight >= 0 && (rb.servers[i].origWeight > 0 ==> 1 <= rb.servers[i].curWeight && rb.servers[i].curWeight <= max(4096, rb.servers[i].origWeight)) && (rb.servers[i].origWeight == 0 ==> rb.servers[i].curWeight == 0)
+//@ pred rbDistinct(rb *Rebalancer) = forall i int, j int :: 0 <= i && i < j && j < len(rb.servers) ==> rb.servers[i] != rb.servers[j]
+
+//@ func increase
+//@   props C10
+//@   ensures result == weight * 4
+//@ func decrease
+//@   props C10
+//@   requires current >= 0
+//@   ensures result == max(target, current / 4)
+
+//@ func (*Rebalancer).weightsGcd
+//@   props C10
+//@   holds rb.mtx
+//@   requires rbPoolOK(rb) && (forall i int :: 0 <= i && i < len(rb.servers) ==> rb.servers[i].curWeight >= 0)
+//@   ensures empty: len(rb.servers) == 0 ==> result == -1
+//@   ensures divides_every_weight: len(rb.servers) > 0 && result >= 1 ==> (forall i int :: 0 <= i && i < len(rb.servers) ==> rb.servers[i].curWeight % result == 0)
+//@   ensures bounded_by_every_positive_weight: len(rb.servers) > 0 ==> result >= 0 && (forall i int :: 0 <= i && i < len(rb.servers) && rb.servers[i].curWeight > 0 ==> 1 <= result && result <= rb.servers[i].curWeight)
+//@   loop 1 invariant -1 <= rangeindex && rangeindex < len(rb.servers) && (rangeindex == -1 ==> divisor == -1) && (rangeindex >= 0 ==> divisor >= 0)
+//@   loop 1 invariant forall i int :: 0 <= i && i <= rangeindex && rb.servers[i].curWeight > 0 ==> 1 <= divisor && divisor <= rb.servers[i].curWeight
+//@   loop 1 invariant divisor >= 1 ==> (forall i int :: 0 <= i && i <= rangeindex ==> rb.servers[i].curWeight % divisor == 0)
+//@   loop 1 invariant rangeindex >= 0 && divisor == 0 ==> (forall i int :: 0 <= i && i <= rangeindex ==> rb.servers[i].curWeight == 0)
+
+//@ func (*Rebalancer).normalizeWeights
+//@   props C10
+//@   holds rb.mtx
+//@   requires rbPoolOK(rb) && rbDistinct(rb) && (forall i int :: 0 <= i && i < len(rb.servers) ==> rb.servers[i].curWeight >= 0)
+//@   modifies rbServer.curWeight, rb.gnorm
+//@   ghost_ensures rb.gnorm == max(1, callres(weightsGcd, 0, 0))
+//@   ensures divisor_positive: rb.gnorm >= 1
+//@   ensures divided_by_common_factor: forall i int :: 0 <= i && i < len(rb.servers) ==> rb.servers[i].curWeight == old(rb.servers[i].curWeight) / rb.gnorm
+//@   ensures division_is_exact: forall i int :: 0 <= i && i < len(rb.servers) ==> rb.servers[i].curWeight * rb.gnorm == old(rb.servers[i].curWeight)
+//@   ensures never_to_zero: forall i int :: 0 <= i && i < len(rb.servers) ==> (old(rb.servers[i].curWeight) > 0 ==> 1 <= rb.servers[i].curWeight && rb.servers[i].curWeight <= old(rb.servers[i].curWeight)) && (old(rb.servers[i].curWeight) == 0 ==> rb.servers[i].curWeight == 0)
+//@   ensures common_divisor: forall i int :: 0 <= i && i < len(rb.servers) ==> rb.servers[i].curWeight == old(rb.servers[i].curWeight) / max(1, callres(weightsGcd, 0, 0))
+//@   ensures others_untouched: forall s *rbServer :: old(allocated(s)) && (forall i int :: 0 <= i && i < len(rb.servers) ==> rb.servers[i] != s) ==> s.curWeight == old(s.curWeight)
+//@   loop 1 invariant -1 <= rangeindex && rangeindex < len(rb.servers) && gcd >= 2 && rbPoolOK(rb) && rbDistinct(rb)
+//@   loop 1 invariant forall i int :: 0 <= i && i < len(rb.servers) && old(rb.servers[i].curWeight) > 0 ==> gcd <= old(rb.servers[i].curWeight)
+//@   loop 1 invariant forall i int :: 0 <= i && i <= rangeindex ==> rb.servers[i].curWeight == old(rb.servers[i].curWeight) / gcd
+//@   loop 1 invariant forall i int :: rangeindex < i && i < len(rb.servers) ==> rb.servers[i].curWeight == old(rb.servers[i].curWeight)
+//@   loop 1 invariant forall s *rbServer :: old(allocated(s)) && (forall i int :: 0 <= i && i < len(rb.servers) ==> rb.servers[i] != s) ==> s.curWeight == old(s.curWeight)
+
+//@ func (*Rebalancer).applyWeights
+//@   props C10
+//@   holds rb.mtx
+//@   requires rbPoolOK(rb)
+//@   modifies external
+//@   ensures records_untouched: len(rb.servers) == old(len(rb.servers)) && (forall i int :: 0 <= i && i < len(rb.servers) ==> rb.servers[i] == old(rb.servers[i]) && rb.servers[i].curWeight == old(rb.servers[i].curWeight) && rb.servers[i].origWeight == old(rb.servers[i].origWeight) && rb.servers[i].good == old(rb.servers[i].good))
+//@   ensures timer_untouched: rb.timer == old(rb.timer)
+//@   loop 1 invariant -1 <= rangeindex && rangeindex < len(rb.servers) && rbPoolOK(rb)
+//@   loop 1 invariant len(rb.servers) == old(len(rb.servers)) && (forall i int :: 0 <= i && i < len(rb.servers) ==> rb.servers[i] == old(rb.servers[i]) && rb.servers[i].curWeight == old(rb.servers[i].curWeight) && rb.servers[i].origWeight == old(rb.servers[i].origWeight) && rb.servers[i].good == old(rb.servers[i].good))
+//@   loop 1 invariant rb.timer == old(rb.timer)
+
+//@ func (*Rebalancer).setMarkedWeights
+//@   props C10
+//@   holds rb.mtx
+//@   requires rbPoolOK(rb) && rbDistinct(rb) && rbWeightsOK(rb)
+//@   modifies external, rbServer.curWeight, rb.gnorm
+//@   ensures keeps_range: rbWeightsOK(rb)
+//@   ensures records_kept: len(rb.servers) == old(len(rb.servers)) && (forall i int :: 0 <= i && i < len(rb.servers) ==> rb.servers[i] == old(rb.servers[i]) && rb.servers[i].origWeight == old(rb.servers[i].origWeight))
+//@   ensures changed_iff_some_good_server_below_cap: result <==> (exists i int :: 0 <= i && i < len(rb.servers) && old(rb.servers[i].good) && old(rb.servers[i].curWeight) * 4 <= 4096)
+//@   ensures unchanged_when_false: !result ==> (forall i int :: 0 <= i && i < len(rb.servers) ==> rb.servers[i].curWeight == old(rb.servers[i].curWeight))
+//@   ensures outliers_only_divided: result ==> rb.gnorm >= 1 && (forall i int :: 0 <= i && i < len(rb.servers) && !old(rb.servers[i].good) ==> rb.servers[i].curWeight * rb.gnorm == old(rb.servers[i].curWeight))
+//@   ensures good_servers_grow_or_stay: result ==> (forall i int :: 0 <= i && i < len(rb.servers) && old(rb.servers[i].good) ==> rb.servers[i].curWeight * rb.gnorm == ite(old(rb.servers[i].curWeight) * 4 <= 4096, old(rb.servers[i].curWeight) * 4, old(rb.servers[i].curWeight)))
+//@   ensures timer_untouched: rb.timer == old(rb.timer)
+//@   loop 1 invariant -1 <= rangeindex && rangeindex < len(rb.servers) && rbPoolOK(rb) && rbDistinct(rb) && len(rb.servers) == old(len(rb.servers)) && rb.timer == old(rb.timer)
+//@   loop 1 invariant forall i int :: 0 <= i && i < len(rb.servers) ==> rb.servers[i] == old(rb.servers[i]) && rb.servers[i].origWeight == old(rb.servers[i].origWeight) && rb.servers[i].good == old(rb.servers[i].good)
+//@   loop 1 invariant forall i int :: 0 <= i && i <= rangeindex ==> rb.servers[i].curWeight == ite(old(rb.servers[i].good) && old(rb.servers[i].curWeight) * 4 <= 4096, old(rb.servers[i].curWeight) * 4, old(rb.servers[i].curWeight))
+//@   loop 1 invariant forall i int :: rangeindex < i && i < len(rb.servers) ==> rb.servers[i].curWeight == old(rb.servers[i].curWeight)
+//@   loop 1 invariant changed <==> (exists i int :: 0 <= i && i <= rangeindex && old(rb.servers[i].good) && old(rb.servers[i].curWeight) * 4 <= 4096)
+
+//@ func (*Rebalancer).convergeWeights
+//@   props C10
+//@   holds rb.mtx
+//@   requires rbPoolOK(rb) && rbDistinct(rb) && rbWeightsOK(rb)
+//@   modifies external, rbServer.curWeight, rb.gnorm
+//@   ensures keeps_range: rbWeightsOK(rb)
+//@   ensures records_kept: len(rb.servers) == old(len(rb.servers)) && (forall i int :: 0 <= i && i < len(rb.servers) ==> rb.servers[i] == old(rb.servers[i]) && rb.servers[i].origWeight == old(rb.servers[i].origWeight))
+//@   ensures changed_iff_some_weight_differs: result <==> (exists i int :: 0 <= i && i < len(rb.servers) && old(rb.servers[i].curWeight) != rb.servers[i].origWeight)
+//@   ensures unchanged_when_false: !result ==> (forall i int :: 0 <= i && i < len(rb.servers) ==> rb.servers[i].curWeight == old(rb.servers[i].curWeight))
+//@   ensures step_towards_configuration: result ==> rb.gnorm >= 1 && (forall i int :: 0 <= i && i < len(rb.servers) ==> rb.servers[i].curWeight * rb.gnorm == ite(old(rb.servers[i].curWeight) == rb.servers[i].origWeight, old(rb.servers[i].curWeight), max(rb.servers[i].origWeight, old(rb.servers[i].curWeight) / 4)))
+//@   ensures timer_untouched: rb.timer == old(rb.timer)
+//@   loop 1 invariant -1 <= rangeindex && rangeindex < len(rb.servers) && rbPoolOK(rb) && rbDistinct(rb) && len(rb.servers) == old(len(rb.servers)) && rb.timer == old(rb.timer)
+//@   loop 1 invariant forall i int :: 0 <= i && i < len(rb.servers) ==> rb.servers[i] == old(rb.servers[i]) && rb.servers[i].origWeight == old(rb.servers[i].origWeight)
+//@   loop 1 invariant forall i int :: 0 <= i && i <= rangeindex ==> rb.servers[i].curWeight == ite(old(rb.servers[i].curWeight) == rb.servers[i].origWeight, old(rb.servers[i].curWeight), max(rb.servers[i].origWeight, old(rb.servers[i].curWeight) / 4))
+//@   loop 1 invariant forall i int :: rangeindex < i && i < len(rb.servers) ==> rb.servers[i].curWeight == old(rb.servers[i].curWeight)
+//@   loop 1 invariant changed <==> (exists i int :: 0 <= i && i <= rangeindex && old(rb.servers[i].curWeight) != rb.servers[i].origWeight)
+
+//@ func (*Rebalancer).setTimer
+//@   props C10
+//@   holds rb.mtx
+//@   assume clock_stable
+//@   modifies rb.timer
+//@   ensures backoff_started: rb.timer == lastclock + rb.backoffDuration
+
+//@ func (*Rebalancer).timerExpired
+//@   props C10
+//@   holds rb.mtx
+//@   assume clock_stable
+//@   ensures expired: result <==> rb.timer < lastclock
+
+//@ func (*Rebalancer).metricsReady
+//@   props C10
+//@   holds rb.mtx
+//@   requires rbPoolOK(rb)
+//@   modifies external
+//@   ensures records_untouched: rb.timer == old(rb.timer) && len(rb.servers) == old(len(rb.servers)) && (forall i int :: 0 <= i && i < len(rb.servers) ==> rb.servers[i] == old(rb.servers[i]) && rb.servers[i].curWeight == old(rb.servers[i].curWeight) && rb.servers[i].origWeight == old(rb.servers[i].origWeight))
+//@   loop 1 invariant -1 <= rangeindex && rangeindex < len(rb.servers) && rbPoolOK(rb)
+//@   loop 1 invariant rb.timer == old(rb.timer) && len(rb.servers) == old(len(rb.servers)) && (forall i int :: 0 <= i && i < len(rb.servers) ==> rb.servers[i] == old(rb.servers[i]) && rb.servers[i].curWeight == old(rb.servers[i].curWeight) && rb.servers[i].origWeight == old(rb.servers[i].origWeight))
+
+//@ func (*Rebalancer).markServers
+//@   props C10
+//@   holds rb.mtx
+//@   requires rbPoolOK(rb) && rbDistinct(rb) && len(rb.ratings) == len(rb.servers)
+//@   modifies external, rbServer.good, elems(rb.ratings)
+//@   ensures records_untouched: rb.timer == old(rb.timer) && len(rb.servers) == old(len(rb.servers)) && (forall i int :: 0 <= i && i < len(rb.servers) ==> rb.servers[i] == old(rb.servers[i]) && rb.servers[i].curWeight == old(rb.servers[i].curWeight) && rb.servers[i].origWeight == old(rb.servers[i].origWeight))
+//@   ensures marks_follow_the_split: forall i int :: 0 <= i && i < len(rb.servers) ==> (rb.servers[i].good <==> in(rb.ratings[i], callres(SplitFloat64, 0, 0)))
+//@   ensures differing_quality_iff_both_classes: result <==> (len(callres(SplitFloat64, 0, 0)) != 0 && len(callres(SplitFloat64, 0, 1)) != 0)
+//@   loop 1 invariant -1 <= rangeindex && rangeindex < len(rb.servers) && rbPoolOK(rb) && len(rb.ratings) == len(rb.servers)
+//@   loop 1 invariant timer_kept: rb.timer == old(rb.timer)
+//@   loop 1 invariant len_kept: len(rb.servers) == old(len(rb.servers))
+//@   loop 1 invariant elems_kept: forall i int :: 0 <= i && i < len(rb.servers) ==> rb.servers[i] == old(rb.servers[i])
+//@   loop 1 invariant weights_kept: forall i int :: 0 <= i && i < len(rb.servers) ==> rb.servers[i].curWeight == old(rb.servers[i].curWeight) && rb.servers[i].origWeight == old(rb.servers[i].origWeight)
+//@   loop 2 invariant -1 <= rangeindex && rangeindex < len(rb.servers) && rbPoolOK(rb) && rbDistinct(rb) && len(rb.ratings) == len(rb.servers)
+//@   loop 2 invariant rb.timer == old(rb.timer) && len(rb.servers) == old(len(rb.servers)) && (forall i int :: 0 <= i && i < len(rb.servers) ==> rb.servers[i] == old(rb.servers[i]) && rb.servers[i].curWeight == old(rb.servers[i].curWeight) && rb.servers[i].origWeight == old(rb.servers[i].origWeight))
+//@   loop 2 invariant forall i int :: 0 <= i && i <= rangeindex ==> (rb.servers[i].good <==> in(rb.ratings[i], g))
+
+//@ func (*Rebalancer).adjustWeights
+//@   props C10
+//@   atomic rb.mtx
+//@   assume clock_stable
+//@   modifies external, rbServer.curWeight, rbServer.good, rb.gnorm, rb.timer, elems(rb.ratings)
+//@   ensures needs_two_servers: old(len(rb.servers)) < 2 ==> calls(setMarkedWeights) + calls(convergeWeights) == 0
+//@   ensures needs_ready_meters: calls(setMarkedWeights) + calls(convergeWeights) == 1 ==> callres(metricsReady, 0, 0)
+//@   ensures at_most_once_per_backoff: calls(setMarkedWeights) + calls(convergeWeights) == 1 ==> old(rb.timer) < lastclock
+//@   ensures one_kind_of_adjustment: calls(setMarkedWeights) + calls(convergeWeights) <= 1 && (calls(setMarkedWeights) == 1 <==> (calls(markServers) == 1 && callres(markServers, 0, 0)))
+//@   ensures timer_restarts_iff_weights_changed: (rb.timer == lastclock + rb.backoffDuration && calls(setTimer) == 1) || (rb.timer == old(rb.timer) && calls(setTimer) == 0)
+//@   ensures timer_set_only_after_a_change: calls(setTimer) == 1 <==> ((calls(setMarkedWeights) == 1 && callres(setMarkedWeights, 0, 0)) || (calls(convergeWeights) == 1 && callres(convergeWeights, 0, 0)))
+//@   ensures outlier_loses_when_possible: old(len(rb.servers)) >= 2 && callres(metricsReady, 0, 0) && old(rb.timer) < lastclock && callres(markServers, 0, 0) ==> calls(setMarkedWeights) == 1
+
+// bridge lemmas of C10 (checked by the solvers)
+//@ lemma c10_outlier_share_never_grows: forall co int, cs int, co2 int, cs2 int, g int :: g >= 1 && co >= 0 && cs >= 0 && co2 >= 0 && cs2 >= 0 && co2 * g == co && (cs2 * g == cs || cs2 * g == 4 * cs) ==> co2 * cs <= co * cs2
+//@ lemma c10_outlier_share_shrinks_when_some_good_server_grows: forall co int, cs int, co2 int, cs2 int, g int :: g >= 1 && co >= 1 && cs >= 1 && co2 >= 0 && cs2 >= 0 && co2 * g == co && cs2 * g == 4 * cs ==> co2 * cs < co * cs2
